@@ -13,6 +13,7 @@ fn body(ctx: &Ctx) -> (Summary, Meta) {
                 den: 8,
                 f32_too: a.n() <= 7,
                 xscale: 1.0,
+                nearly_closed: false,
             });
         }
     }
@@ -27,9 +28,14 @@ fn body(ctx: &Ctx) -> (Summary, Meta) {
                     den: 8,
                     f32_too: true,
                     xscale,
+                    nearly_closed: false,
                 });
             }
         }
+    }
+    // periodic data that almost closes (last = first + 2^-20 relative)
+    for a in axes.iter().filter(|a| a.n() >= 3) {
+        jobs.push(SplineJob { axis: a.clone(), spec: nimc::subj::BcSpec::Periodic, den: 8, f32_too: false, xscale: 1.0, nearly_closed: true });
     }
     let want = Want {
         structural: true,
@@ -49,7 +55,7 @@ fn body(ctx: &Ctx) -> (Summary, Meta) {
         },
     );
     let meta = Meta {
-        rule: "every (axis word, boundary configuration) is one built spline (state); per lane the Hermite pair of every interval is recovered from the implementation's samples at t=1/4,3/4 and (i) S(x_i)=y_i, (ii) the 5 other eighth-samples lie on that cubic, (iii) S' and (iv) S'' agree from both sides at every interior knot. Deliberately independent of which boundary rows are right. Non-trivial = lane with non-constant data.".into(),
+        rule: "every (axis word, boundary configuration) is one built spline (state); per lane the Hermite pair of every interval is recovered from the implementation's samples at t=1/4,3/4 and (i) S(x_i)=y_i, (ii) the 5 other eighth-samples lie on that cubic, (iii) S' and (iv) S'' agree from both sides at every interior knot. Deliberately independent of which boundary rows are right. Non-trivial = lane with non-constant data. Extra jobs: Periodic on every axis with data whose last value misses the first by 2^-20 relative: rejected by build() (counted) or, if accepted, held to the same four statements.".into(),
         bounds: format!("{} axes (same alphabet as C03), 33 boundary configurations, 8 samples per interval, f64 and f32", axes.len()),
         assumptions: vec![
             "tolerances K*eps*scale (value), 64x /h (S'), 256x /h^2 (S''), scale = max(|y|,|a|,|b|) of the recovered pieces".into(),
